@@ -21,6 +21,7 @@ var (
 	leavesMid  = []string{"-a", "-o", "-ab", "OPTIONS", "X", "Y", "--"}
 	leavesTiny = []string{"-a", "-ab", "X", "--"}
 	leavesNest = []string{"X", "--", "-a"} // deep nesting of repetitions / optional groups
+	leavesOpts = []string{"-a", "-b", "X"} // two options consumable at several points of one run (backtracking completeness)
 
 	tokFull = []string{"x", "v", "-", "--", "-a", "--aa", "-a=true", "-b", "-ab", "-ba", "-o", "-ov", "-o=v", "--out", "--out=v",
 		"-aov", "-ao", "-z", "--zz", "-az", "-o=", "--out=", "-z=v"}
@@ -48,6 +49,8 @@ func langTiers(c *Ctx) []langTier {
 			{"full-s3-l3-alltokens", leavesFull, 3, tokFull, 3, false},
 			{"full-s3-l4", leavesFull, 3, tokMid, 4, false},
 			{"tiny-s5-l3", leavesTiny, 5, tokTiny, 3, false},
+			{"opts-s5-l4", leavesOpts, 5, []string{"x", "-a", "-b", "-ab"}, 4, false},
+			{"nest-s6-l3", leavesNest, 6, []string{"x", "-a", "--"}, 3, false},
 			{"builtin-s3-l3", leavesFull, 3, tokMid, 3, true},
 		}
 	}
@@ -56,6 +59,7 @@ func langTiers(c *Ctx) []langTier {
 		{"full-s2-l3-alltokens", leavesFull, 2, tokFull, 3, false},
 		{"mid-s4-l2", leavesMid, 4, tokMid, 2, false},
 		{"nest-s5-l3", leavesNest, 5, []string{"x", "-a", "--"}, 3, false},
+		{"opts-s5-l3", leavesOpts, 5, []string{"x", "-a", "-b"}, 3, false},
 		{"builtin-s2-l3", leavesFull, 2, tokMid, 3, true},
 	}
 }
@@ -95,7 +99,7 @@ func runLangCheck(c *Ctx) {
 				if c.Thorough() {
 					k = 6
 				}
-				if n <= 3 && !t.builtin {
+				if (n <= 3 || (c.Thorough() && n <= 4 && len(t.leaves) <= 4)) && !t.builtin {
 					alpha := specAlphabet(node, d)
 					if len(alpha) > 0 && len(alpha) <= 4 {
 						for _, argv := range ref.Argvs(alpha, k) {
